@@ -235,6 +235,14 @@ Theorem C16_legacy_args_equiv_parse_fuel_partial : forall s cx ps,
           (legacy_parse_args s false cx ps a false None p).
 Proof. exact legacy_args_equiv_run_parse_fuel. Qed.
 
+(** why [star_premises] remains an explicit premise: it does not hold of every
+    context — under a context that declares [*] as a specials, the token read at
+    a [*] is a specials token with text [*] (so the legacy algorithm, which tests
+    for a chars token, and the pylatexenc-3 star argument may differ) *)
+Example C16_star_premises_context_dependent :
+  ~ star_premises [42%N] star_ctx (walker_state star_ctx).
+Proof. exact star_premises_context_dependent. Qed.
+
 (** a parsed expression / group ends exactly where the reader stands *)
 Theorem C16_expr_ends_at_reader : forall s cx f ps acc pos n p,
   run s false cx f (TExpr ps true true false true acc pos) = Ok (ONode (Some n)) p ->
@@ -288,5 +296,6 @@ Print Assumptions C16_fuel_monotone.
 Print Assumptions C16_args_fold_is_run.
 Print Assumptions C16_legacy_args_equiv_run_partial.
 Print Assumptions C16_legacy_args_equiv_parse_fuel_partial.
+Print Assumptions C16_star_premises_context_dependent.
 Print Assumptions C16_expr_ends_at_reader.
 Print Assumptions C16_group_ends_at_reader.
